@@ -9,6 +9,7 @@ import (
 	"github.com/orda-io/orda/client/pkg/types"
 	"github.com/orda-io/orda/client/pkg/utils"
 	"reflect"
+	"sort"
 	"strconv"
 	"strings"
 )
@@ -425,8 +426,8 @@ func (its *jsonPrimitive) createJSONObject(parent jsonType, value interface{}, t
 
 	if target.Kind() == reflect.Map {
 		mapValue := value.(map[string]interface{})
-		for k, v := range mapValue {
-			val := reflect.ValueOf(v)
+		for _, k := range sortedKeys(mapValue) {
+			val := reflect.ValueOf(mapValue[k])
 			its.addValueToJSONObject(jo, k, val, ts)
 		}
 	} else { // reflect.Struct
@@ -437,6 +438,17 @@ func (its *jsonPrimitive) createJSONObject(parent jsonType, value interface{}, t
 	}
 
 	return jo
+}
+
+// sortedKeys returns the keys of m in ascending order. The children of a new JSONObject take their
+// identifiers from ts one after another, so every replica has to visit them in the same order.
+func sortedKeys(m map[string]interface{}) []string {
+	keys := make([]string, 0, len(m))
+	for k := range m {
+		keys = append(keys, k)
+	}
+	sort.Strings(keys)
+	return keys
 }
 
 func (its *jsonPrimitive) addValueToJSONObject(jo *jsonObject, key string, value reflect.Value, ts *model.Timestamp) {
